@@ -75,6 +75,7 @@ def replay_history(case) -> List[Tuple[str, str]]:
         sA = Session(os.path.join(work, "a"), base_cfg=extra, text=text, exc=exc, episodes=eps())
         sB = Session(os.path.join(work, "b"), base_cfg=extra, text=text, exc=exc, episodes=eps())          # identical twin: id/ts purity
         sOff = Session(os.path.join(work, "off"), base_cfg=extra, text=text, exc=exc, episodes=eps())      # same history, reflection off
+        sA.bool_spelling = sB.bool_spelling = case.get("spell", 0)     # t3.allow_reflection written the way YAML/env overrides deliver it
         t_ok, t_to = TIMING[case.get("tv", 0)]
         prev_ver, prev_ids = 0, set()
         for ti, step in enumerate(h):
@@ -227,7 +228,7 @@ def check(run) -> None:
         if i % stride:
             continue
         n = len(cases)
-        cases.append({"h": h, "tokens": tokens_all[n % 6], "exc": excs[(n // 16) % 4], "text": (n // 3) % 4, "tv": (n // 6) % 3, "workdir": run.workdir})
+        cases.append({"h": h, "tokens": tokens_all[n % 6], "exc": excs[(n // 16) % 4], "text": (n // 3) % 4, "tv": (n // 6) % 3, "spell": (n // 2) % 6, "workdir": run.workdir})
     for j, h in enumerate(hs_dk):
         if q and j % 3:
             continue
@@ -252,6 +253,8 @@ def check(run) -> None:
         for clause, msg in fails:
             run.fail(clause, {"clause": clause, "backend": "llm", "mode": c["mode"]}, {k: v for k, v in c.items() if k != "workdir"}, msg,
                      replay={"llm": {k: v for k, v in c.items() if k != "workdir"}})
+    from . import c19_write
+    c19_write.check(run)
     run.exhaustive = not q
     run.assumptions += ["the plan's reflection flag is injected through the documented orchestrator.t3_deliberate override around the real planner",
                         "timeout is produced by a scripted perf counter jumping inside the reflection call"]
@@ -260,7 +263,10 @@ def check(run) -> None:
 def replay(rep) -> int:
     r = rep["replay"]
     os.makedirs("/verif/.work/C19", exist_ok=True)
-    if "case" in r:
+    if "reflwrite" in r:
+        from . import c19_write
+        fails = c19_write.replay_case(r["reflwrite"])
+    elif "case" in r:
         fails = replay_history(dict(r["case"], workdir="/verif/.work/C19"))
     else:
         fails = llm_case(dict(r["llm"], workdir="/verif/.work/C19"))
